@@ -240,6 +240,23 @@ def run(ctx) -> None:
         if not name_tests:
             ctx.ob("C18.R1-archive-members", lp, False, "no containment test on the member names inside the member loop",
                    construct="containment test on member.name")
+        # EVERY member reaches the test of its name: extractall() writes whatever the archive holds - a FIFO, a device node, a member of
+        # unknown type is created (the latter as a regular file with its payload) - so a `continue` for "special" members in front of the
+        # test lets '../escaped' through (seed C18-14)
+        if name_tests:
+            lp_nodes = [n for n in cfg.nodes if n.kind == "for" and n.ast is lp]
+            t_nodes = [n for n in cfg.nodes if n.kind == "test" and n.ast is not None and any(
+                c.compare is x or n.ast is c.compare for c in name_tests for x in ast.walk(n.ast))]
+            if lp_nodes and t_nodes:
+                body_entry = [m_ for (m_, lab) in lp_nodes[0].succ if lab not in ("F", "exit", "else")]
+                back = cfg.reach(body_entry, blocked=t_nodes, ignore_labels=("exc", "except", "raise", "uncaught"))
+                skipped = lp_nodes[0].id in back
+                ctx.ob("C18.R1-archive-members", lp, not skipped,
+                       "every member of the archive reaches the containment test of its name" if not skipped else
+                       "an iteration of the member loop can go on to the next member without testing this one's name (a `continue` ahead of the "
+                       "containment test): the members it skips are still written by extractall() - a FIFO or a member of unknown type named "
+                       "'../escaped.txt' is created outside the working directory and staging reports success",
+                       construct="member loop: every member reaches the containment test")
         for c in name_tests:
             ok, why = containment_quality(sr, c, lambda n: isinstance(n, ast.Attribute) and n.attr in ("name", "path") and isinstance(n.value, ast.Name))
             ctx.ob("C18.R1-archive-members", c.compare, ok,
